@@ -77,3 +77,12 @@ Theorem c09_local_peer_local : forall c, c < n_ctors ->
   ((c = 3 \/ c = 5) -> forall lb, transport_scope c lb = Some true).
 Proof. exact local_peer_local. Qed.
 Print Assumptions c09_local_peer_local.
+
+(* Hypothesis made visible: c09_scope speaks about the face an id denotes in the forwarder's face map (get_face), i.e. it assumes
+   a well-formed face table in which an id denotes one face.  The model's table has that shape after every history of face
+   additions and removals (below); that the real face table never hands one id to two concurrently registered faces is
+   property C16's obligation, not C09's. *)
+Theorem c09_face_table_wf : forall s0 (h : history), NoDup (map f_id (faces s0)) ->
+  forall pre e r, In (pre, e, r) (trace s0 h) -> NoDup (map f_id (faces pre)).
+Proof. exact face_table_wf. Qed.
+Print Assumptions c09_face_table_wf.
